@@ -105,6 +105,10 @@ func genProtectedOps(rng *rand.Rand, g *GenesisSpec, nBlocks int) []Op {
 				ops = append(ops, Op{K: "pc", W: i, To: "staking", Mut: "delegate", A: []string{fmt.Sprintf("val%d", v), "100000"}})
 			}
 		}
+		// the orchestrator of self-witnessing transactions and its routers hold coins (see c03.go)
+		for _, c := range []string{"c:seq", "c:router0", "c:router1", "c:router2"} {
+			ops = append(ops, Op{K: "bank", W: 1, To: c, Val: "900000000", Denom: BaseDenom, Price: "b+1", Gas: "200000"})
+		}
 		ops = append(ops, Op{K: "block", Dt: 5})
 	}
 	deployAt := -1
@@ -121,6 +125,16 @@ func genProtectedOps(rng *rand.Rand, g *GenesisSpec, nBlocks int) []Op {
 		for i := 0; i < n; i++ {
 			if deployAt >= 0 && b >= deployAt && rng.IntN(4) == 0 {
 				ops = append(ops, Op{K: "erc20", W: rng.IntN(g.Wallets), Mut: pick(rng, "transfer", "transfer", "name", "balanceOf"), Ref: rng.IntN(2), A: []string{fmt.Sprintf("w%d", rng.IntN(g.Wallets)), pick(rng, "1", "1000")}})
+				continue
+			}
+			if pcTraffic && rng.IntN(7) == 0 {
+				// fresh accounts paid by the bank module through the ERC-20 precompile while the EVM looks at and touches
+				// them (EIP-158 deletion of touched empty accounts must not take them for empty)
+				if rng.IntN(2) == 0 {
+					ops = append(ops, genWitnessCalm(rng, g))
+				} else {
+					ops = append(ops, genWitness(rng, g))
+				}
 				continue
 			}
 			if pcTraffic && rng.IntN(3) == 0 {
